@@ -16,6 +16,17 @@ def main():
     n, dist, fails, samples, skipped = 0, {}, [], [], 0
     total, mism = (0, 0), []
     if binary and c.run_harness(binary, "c05", casefile, timeout=6000):
+        # arity schedules against their definition (independent of the model)
+        import spec_c05
+        nsched = 0
+        for lineno, op, args, res in parse_case_lines(casefile):
+            if op != "aritybits":
+                continue
+            nsched += 1
+            why = spec_c05.check(op, args, res)
+            if why:
+                fails.append({"shape": "aritybits", "case": "arity-schedule", "detail": why, "line": lineno})
+        dist["arity-schedule"] = nsched
         for line in open(casefile):
             if not line.startswith("c05 "):
                 continue
